@@ -18,6 +18,8 @@ fn main() {
         "w_flag" => vh::w_flag::main(rest),
         "w_forbid" => vh::w_forbid::main(rest),
         "w_pipe" => vh::w_pipe::main(rest),
+        "w_origin" => vh::w_origin::main(rest),
+        "w_strace" => vh::w_strace::main(rest),
         "w_halflock" => vh::w_halflock::main(rest),
         _ => {
             eprintln!("unknown workload {:?}", w);
